@@ -56,5 +56,18 @@ for n in sorted(os.listdir(sd)):
 body = ("%d of %d seeded changes are reported by the check of their property (last run of `tools/run_seeded.py`; per-seed records in `seeded/<id>/result.json`).  Every change was written by a sub-agent that saw only the property text and a scratch worktree, compiles, keeps the 128 baseline tests, and has a demonstration that fails with it and passes without; the lead confirmed all of that in a scratch worktree before keeping it (`meta.json: lead_confirmation`).\n\n| seeded change | property | what it does | result |\n|---|---|---|---|\n" % (caught, total)
         + "\n".join(rows))
 s = put(s, "SEEDED TABLE", body, "## 14. Seeded changes and which checks catch them (generated)")
+# --- measured cost / coverage per property (from the evidence files of the last runs)
+ev = os.path.join(ROOT, "evidence")
+rows = []
+for fn in sorted(os.listdir(ev)) if os.path.isdir(ev) else []:
+    if fn.endswith(".json"):
+        d = json.load(open(os.path.join(ev, fn)))
+        c = d["coverage"]
+        thms = len([o for o in c.get("obligation_list", []) if o["name"].startswith("thm:")])
+        rows.append("| %s | %s | %d | %d / %d | %d | %d | %.0f s |" % (d["property_id"], d["tier"], thms, c.get("discharged", 0), c.get("obligations", 0),
+                    c.get("evaluations", 0), c.get("distinct_nontrivial", 0), d["wall_s"]))
+body = ("Numbers of the most recent run of each check in this working copy (evidence files are rewritten on every run).\n\n"
+        "| property | tier | audited theorems | obligations discharged | evaluations | distinct non-trivial | wall |\n|---|---|---|---|---|---|---|\n" + "\n".join(rows))
+s = put(s, "COST TABLE", body, "## 10b. Measured cost and coverage (generated)")
 open(p, "w").write(s)
 print("findings: %d fixed, %d known; seeded: %d/%d" % (len(rows_f), len(rows_k), caught, total))
